@@ -17,6 +17,33 @@ Proof.
   intros p Hin. apply String.eqb_eq. now apply H.
 Qed.
 
+(* The library's exception kinds (`var NAME = CelloEmpty(ARG);`): exception_catch matches by eq and
+   Type objects compare by their name, which is ARG; so every kind must carry its own variable's
+   name and the names must be pairwise distinct.  Decided by computation, like the shapes. *)
+Fixpoint nodupb (l : list string) : bool :=
+  match l with
+  | [] => true
+  | x :: r => negb (existsb (String.eqb x) r) && nodupb r
+  end.
+
+Lemma nodupb_NoDup : forall l, nodupb l = true -> NoDup l.
+Proof.
+  induction l as [|x r IH]; intros H; [constructor|].
+  cbn in H. apply andb_true_iff in H. destruct H as (Hx & Hr). constructor; [|now apply IH].
+  intros Hin. apply negb_true_iff in Hx.
+  assert (existsb (String.eqb x) r = true) by (apply existsb_exists; exists x; split; [exact Hin | apply String.eqb_refl]).
+  congruence.
+Qed.
+
+Lemma kinds_ok_dec : forall l : list (string * string),
+  if forallb (fun p => String.eqb (fst p) (snd p)) l && nodupb (map snd l)
+  then Forall (fun p => fst p = snd p) l /\ NoDup (map snd l) else True.
+Proof.
+  intros l. destruct (forallb _ l && nodupb (map snd l)) eqn:H; [|exact I].
+  apply andb_true_iff in H. destruct H as (H1 & H2). split; [|now apply nodupb_NoDup].
+  rewrite forallb_forall in H1. apply Forall_forall. intros q Hin. apply String.eqb_eq. now apply H1.
+Qed.
+
 Lemma clear_active_generated : clear_active_on_catch = true.
 Proof. reflexivity. Qed.
 
